@@ -461,7 +461,7 @@ class LP_Solver:
             "lec_sum_abs_diff", 
             lowBound = 0,
             upBound = (self.model.get_max_lec_upper_quota() * 
-                self.model.num_students),
+                self.model.num_lecturers),
             cat="Integer")
         
         self.prob += (obj >= lpSum(self.model.abs_lec_diff))
